@@ -86,3 +86,50 @@ def register(reg):
                                                       'result[1][j] == hexrev(ours(result[0] + j))))'),
                  ('forced', 'implies(old(count) >= 0, len(result[1]) == old(count))')],
         props=['C03'])
+
+    # ---- reorg_chain: which blocks are re-fetched and undone -----------------------------------------------------------------------
+    #  * every (height, hash) pair handed to the block fetcher labels the hash with ITS OWN height (the fetched file and the
+    #    undo row looked up for it are keyed by that height) - precondition of OnDiskBlock.prefetch_many, proved at the call;
+    #  * the blocks are undone from the tip downwards, each only if it is the current tip.
+    OB = 'electrumx/server/block_processor.py:OnDiskBlock'
+    PAIRS = List(Tuple(Int, KStr))
+    RB = reg.usort('ReorgBlock', attrs={'hex_hash': KStr, 'height': Int})
+    reg.classes['ext:BPState'].fields['tip'] = KBytes
+    reg.classes[BP].fields['backed_up_event'] = Obj('ext:Event')
+    reg.classes['ext:Event'].methods.update({'set': 'ext:Event.set', 'clear': 'ext:Event.clear'})
+    for m in ('set', 'clear'):
+        reg.contract('ext:Event.' + m, params={'self': Obj('ext:Event')}, assumes_inv=False, maintains_inv=False,
+                     trusted='T-ASYNCIO: Event.set / clear')
+    reg.contract(OB + '.prefetch_many', params={'daemon': Obj('ext:BPDaemon'), 'pairs': PAIRS, 'kind': KStr},
+                 requires=[('every-hash-is-labelled-with-its-own-height',
+                            'forall(lambda j=Int: implies(0 <= j and j < len(pairs), pairs[j][1] == hexrev(ours(pairs[j][0]))))')],
+                 raises={}, assumes_inv=False, maintains_inv=False,
+                 trusted='A-CALLEE: OnDiskBlock.prefetch_many fetches each listed block to the file named after (hash, height) and '
+                         'registers it under that height (C18: get_block)')
+    reg.contract(OB + '.streamed_block', params={'hex_hash': KStr}, returns=Opt(RB), raises={},
+                 assumes_inv=False, maintains_inv=False, ensures=['implies(not is_none(result), some(result).hex_hash == hex_hash)'],
+                 trusted='A-CALLEE: OnDiskBlock.streamed_block waits for the fetched block of that hash (None if the fetch failed)')
+    reg.contract(BP + '.backup_block', params={'block': RB}, raises={'ChainError': [], 'AssertionError': []},
+                 requires=[('the-block-is-the-tip', 'block.hex_hash == hexrev(self.state.tip)')],
+                 modifies=['self.state.height', 'self.state.tip', 'self.touched', 'self.utxo_cache', 'self.db_deletes'],
+                 assumes_inv=False, maintains_inv=False,
+                 ensures=['self.state.height == old(self.state.height) - 1', 'self.state.tip == ours(self.state.height)'],
+                 trusted='A-CALLEE: BlockProcessor.backup_block undoes the tip block: height - 1, tip = the previous block (bounded stand-in '
+                         'of C03 for its content)')
+    reg.contract(BP + '.run_with_lock', params={'coro': KJ}, returns=KJ, assumes_inv=False, maintains_inv=False,
+                 trusted='T-ASYNCIO: run_with_lock awaits the job under the state lock (the job has run when it returns)')
+    reg.contract(
+        BP + '.reorg_chain', params={'count': Int},
+        requires=[('indexed', 'self.state.height >= 1 and self.state.tip == ours(self.state.height)'),
+                  ('the-tips-differ', 'implies(count < 0, not (' + AGREE.format(h='self.state.height') + '))'),
+                  ('forced-count-in-range', 'implies(count >= 0, count <= self.state.height)')],
+        raises={'DBError': [], 'DaemonError': [], 'ChainError': [], 'AssertionError': []}, assumes_inv=False, maintains_inv=False,
+        modifies=['self.state.height', 'self.state.tip', 'self.touched', 'self.utxo_cache', 'self.db_deletes', 'self.db.state'],
+        ensures=[('only-blocks-above-the-fork-point-are-undone', 'self.state.height <= old(self.state.height) and self.state.height >= g_start - 1')],
+        ghost={('after', 'start, hex_hashes = await self._reorg_hashes(count)'): ['g_start = start', 'h0 = self.state.height']},
+        locals={'g_start': Int, 'h0': Int},
+        loops={0: LoopSpec('for hex_hash in reversed(hex_hashes)',
+                           invariants=[('undone-from-the-tip-downwards', 'self.state.height == h0 - _i and self.state.tip == ours(self.state.height)'),
+                                       ('range', '_i <= len(hex_hashes) and len(hex_hashes) == h0 - g_start + 1')],
+                           modifies=['self.state.height', 'self.state.tip', 'self.touched', 'self.utxo_cache', 'self.db_deletes'])},
+        props=['C03'])
